@@ -1,9 +1,12 @@
 (* SendReq/Model.v — executable model of RegionRequestSender.SendReqCtx + replicaSelector
    (internal/locate/region_request.go, replica_selector.go, config/retry/backoff.go) AS THE CODE IS NOW,
-   for one TiKV region with n replicas, without forwarding (proxy) and without TiFlash.
+   for one TiKV region with n replicas (with and without forwarding through a proxy), without TiFlash.
    One outcome of the fault script is consumed per RPC attempt; random tie-breaks (randIntn) and the
    jittered sleep lengths are oracle inputs.  Not modelled: wall-clock (attemptedTime, region TTL,
-   decay of the estimated wait), health-check goroutines, store re-resolution, forwarding. *)
+   decay of the estimated wait), health-check goroutines, store re-resolution; the region is freshly loaded
+   (proxyTiKVIdx = -1: it is only set by onSendSuccess, i.e. when the call ends).
+   [once] selects the repair candidate for finding F10 ("re-arm an exhausted replica at most once per selector");
+   the code as it is = [once := false] ([run]). *)
 From Coq Require Import List Bool Arith NArith Lia.
 Import ListNotations.
 
@@ -46,7 +49,8 @@ Definition max_replica_attempt : nat := 10.  (* maxReplicaAttempt *)
 Inductive event :=
 | EAtt (idx : nat) (replica_read stale_read is_retry : bool)   (* one RPC attempt and the flags it carries *)
 | EBo (k : bo_kind) (sleep : N)                                (* one back-off *)
-| ERearm (idx : nat).                                          (* onUpdateLeader re-armed an exhausted replica *)
+| ERearm (idx : nat)                                           (* onUpdateLeader re-armed an exhausted replica *)
+| EProxy (idx : nat).                                          (* the attempt that follows is forwarded through replica idx (ForwardedHost = target) *)
 
 Inductive result :=
 | RSuccess (i : nat)      (* the response of attempt i *)
@@ -102,30 +106,35 @@ Record state := mkState {
   bo_total : N;
   bo_excl : N;
   orc_r : list nat;
-  orc_s : list N }.
-Definition set_reps (v : list rep) (s : state) : state := mkState (v) (leader s) (valid s) (rt s) (sel_attempts s) (inv_retry s) (busy_thr s) (lb_count s) (lb_peer s) (lb_probed s) (q_rt s) (q_rr s) (q_stale s) (q_retry s) (bo_total s) (bo_excl s) (orc_r s) (orc_s s).
-Definition set_leader (v : nat) (s : state) : state := mkState (reps s) (v) (valid s) (rt s) (sel_attempts s) (inv_retry s) (busy_thr s) (lb_count s) (lb_peer s) (lb_probed s) (q_rt s) (q_rr s) (q_stale s) (q_retry s) (bo_total s) (bo_excl s) (orc_r s) (orc_s s).
-Definition set_valid (v : bool) (s : state) : state := mkState (reps s) (leader s) (v) (rt s) (sel_attempts s) (inv_retry s) (busy_thr s) (lb_count s) (lb_peer s) (lb_probed s) (q_rt s) (q_rr s) (q_stale s) (q_retry s) (bo_total s) (bo_excl s) (orc_r s) (orc_s s).
-Definition set_rt (v : read_type) (s : state) : state := mkState (reps s) (leader s) (valid s) (v) (sel_attempts s) (inv_retry s) (busy_thr s) (lb_count s) (lb_peer s) (lb_probed s) (q_rt s) (q_rr s) (q_stale s) (q_retry s) (bo_total s) (bo_excl s) (orc_r s) (orc_s s).
-Definition set_sel_attempts (v : nat) (s : state) : state := mkState (reps s) (leader s) (valid s) (rt s) (v) (inv_retry s) (busy_thr s) (lb_count s) (lb_peer s) (lb_probed s) (q_rt s) (q_rr s) (q_stale s) (q_retry s) (bo_total s) (bo_excl s) (orc_r s) (orc_s s).
-Definition set_inv_retry (v : bool) (s : state) : state := mkState (reps s) (leader s) (valid s) (rt s) (sel_attempts s) (v) (busy_thr s) (lb_count s) (lb_peer s) (lb_probed s) (q_rt s) (q_rr s) (q_stale s) (q_retry s) (bo_total s) (bo_excl s) (orc_r s) (orc_s s).
-Definition set_busy_thr (v : bool) (s : state) : state := mkState (reps s) (leader s) (valid s) (rt s) (sel_attempts s) (inv_retry s) (v) (lb_count s) (lb_peer s) (lb_probed s) (q_rt s) (q_rr s) (q_stale s) (q_retry s) (bo_total s) (bo_excl s) (orc_r s) (orc_s s).
-Definition set_lb_count (v : nat) (s : state) : state := mkState (reps s) (leader s) (valid s) (rt s) (sel_attempts s) (inv_retry s) (busy_thr s) (v) (lb_peer s) (lb_probed s) (q_rt s) (q_rr s) (q_stale s) (q_retry s) (bo_total s) (bo_excl s) (orc_r s) (orc_s s).
-Definition set_lb_peer (v : option nat) (s : state) : state := mkState (reps s) (leader s) (valid s) (rt s) (sel_attempts s) (inv_retry s) (busy_thr s) (lb_count s) (v) (lb_probed s) (q_rt s) (q_rr s) (q_stale s) (q_retry s) (bo_total s) (bo_excl s) (orc_r s) (orc_s s).
-Definition set_lb_probed (v : bool) (s : state) : state := mkState (reps s) (leader s) (valid s) (rt s) (sel_attempts s) (inv_retry s) (busy_thr s) (lb_count s) (lb_peer s) (v) (q_rt s) (q_rr s) (q_stale s) (q_retry s) (bo_total s) (bo_excl s) (orc_r s) (orc_s s).
-Definition set_q_rt (v : read_type) (s : state) : state := mkState (reps s) (leader s) (valid s) (rt s) (sel_attempts s) (inv_retry s) (busy_thr s) (lb_count s) (lb_peer s) (lb_probed s) (v) (q_rr s) (q_stale s) (q_retry s) (bo_total s) (bo_excl s) (orc_r s) (orc_s s).
-Definition set_q_rr (v : bool) (s : state) : state := mkState (reps s) (leader s) (valid s) (rt s) (sel_attempts s) (inv_retry s) (busy_thr s) (lb_count s) (lb_peer s) (lb_probed s) (q_rt s) (v) (q_stale s) (q_retry s) (bo_total s) (bo_excl s) (orc_r s) (orc_s s).
-Definition set_q_stale (v : bool) (s : state) : state := mkState (reps s) (leader s) (valid s) (rt s) (sel_attempts s) (inv_retry s) (busy_thr s) (lb_count s) (lb_peer s) (lb_probed s) (q_rt s) (q_rr s) (v) (q_retry s) (bo_total s) (bo_excl s) (orc_r s) (orc_s s).
-Definition set_q_retry (v : bool) (s : state) : state := mkState (reps s) (leader s) (valid s) (rt s) (sel_attempts s) (inv_retry s) (busy_thr s) (lb_count s) (lb_peer s) (lb_probed s) (q_rt s) (q_rr s) (q_stale s) (v) (bo_total s) (bo_excl s) (orc_r s) (orc_s s).
-Definition set_bo_total (v : N) (s : state) : state := mkState (reps s) (leader s) (valid s) (rt s) (sel_attempts s) (inv_retry s) (busy_thr s) (lb_count s) (lb_peer s) (lb_probed s) (q_rt s) (q_rr s) (q_stale s) (q_retry s) (v) (bo_excl s) (orc_r s) (orc_s s).
-Definition set_bo_excl (v : N) (s : state) : state := mkState (reps s) (leader s) (valid s) (rt s) (sel_attempts s) (inv_retry s) (busy_thr s) (lb_count s) (lb_peer s) (lb_probed s) (q_rt s) (q_rr s) (q_stale s) (q_retry s) (bo_total s) (v) (orc_r s) (orc_s s).
-Definition set_orc_r (v : list nat) (s : state) : state := mkState (reps s) (leader s) (valid s) (rt s) (sel_attempts s) (inv_retry s) (busy_thr s) (lb_count s) (lb_peer s) (lb_probed s) (q_rt s) (q_rr s) (q_stale s) (q_retry s) (bo_total s) (bo_excl s) (v) (orc_s s).
-Definition set_orc_s (v : list N) (s : state) : state := mkState (reps s) (leader s) (valid s) (rt s) (sel_attempts s) (inv_retry s) (busy_thr s) (lb_count s) (lb_peer s) (lb_probed s) (q_rt s) (q_rr s) (q_stale s) (q_retry s) (bo_total s) (bo_excl s) (orc_r s) (v).
+  orc_s : list N;
+  proxy : option nat;
+  rearmed_v : list bool }.
+Definition set_reps (v : list rep) (s : state) : state := mkState (v) (leader s) (valid s) (rt s) (sel_attempts s) (inv_retry s) (busy_thr s) (lb_count s) (lb_peer s) (lb_probed s) (q_rt s) (q_rr s) (q_stale s) (q_retry s) (bo_total s) (bo_excl s) (orc_r s) (orc_s s) (proxy s) (rearmed_v s).
+Definition set_leader (v : nat) (s : state) : state := mkState (reps s) (v) (valid s) (rt s) (sel_attempts s) (inv_retry s) (busy_thr s) (lb_count s) (lb_peer s) (lb_probed s) (q_rt s) (q_rr s) (q_stale s) (q_retry s) (bo_total s) (bo_excl s) (orc_r s) (orc_s s) (proxy s) (rearmed_v s).
+Definition set_valid (v : bool) (s : state) : state := mkState (reps s) (leader s) (v) (rt s) (sel_attempts s) (inv_retry s) (busy_thr s) (lb_count s) (lb_peer s) (lb_probed s) (q_rt s) (q_rr s) (q_stale s) (q_retry s) (bo_total s) (bo_excl s) (orc_r s) (orc_s s) (proxy s) (rearmed_v s).
+Definition set_rt (v : read_type) (s : state) : state := mkState (reps s) (leader s) (valid s) (v) (sel_attempts s) (inv_retry s) (busy_thr s) (lb_count s) (lb_peer s) (lb_probed s) (q_rt s) (q_rr s) (q_stale s) (q_retry s) (bo_total s) (bo_excl s) (orc_r s) (orc_s s) (proxy s) (rearmed_v s).
+Definition set_sel_attempts (v : nat) (s : state) : state := mkState (reps s) (leader s) (valid s) (rt s) (v) (inv_retry s) (busy_thr s) (lb_count s) (lb_peer s) (lb_probed s) (q_rt s) (q_rr s) (q_stale s) (q_retry s) (bo_total s) (bo_excl s) (orc_r s) (orc_s s) (proxy s) (rearmed_v s).
+Definition set_inv_retry (v : bool) (s : state) : state := mkState (reps s) (leader s) (valid s) (rt s) (sel_attempts s) (v) (busy_thr s) (lb_count s) (lb_peer s) (lb_probed s) (q_rt s) (q_rr s) (q_stale s) (q_retry s) (bo_total s) (bo_excl s) (orc_r s) (orc_s s) (proxy s) (rearmed_v s).
+Definition set_busy_thr (v : bool) (s : state) : state := mkState (reps s) (leader s) (valid s) (rt s) (sel_attempts s) (inv_retry s) (v) (lb_count s) (lb_peer s) (lb_probed s) (q_rt s) (q_rr s) (q_stale s) (q_retry s) (bo_total s) (bo_excl s) (orc_r s) (orc_s s) (proxy s) (rearmed_v s).
+Definition set_lb_count (v : nat) (s : state) : state := mkState (reps s) (leader s) (valid s) (rt s) (sel_attempts s) (inv_retry s) (busy_thr s) (v) (lb_peer s) (lb_probed s) (q_rt s) (q_rr s) (q_stale s) (q_retry s) (bo_total s) (bo_excl s) (orc_r s) (orc_s s) (proxy s) (rearmed_v s).
+Definition set_lb_peer (v : option nat) (s : state) : state := mkState (reps s) (leader s) (valid s) (rt s) (sel_attempts s) (inv_retry s) (busy_thr s) (lb_count s) (v) (lb_probed s) (q_rt s) (q_rr s) (q_stale s) (q_retry s) (bo_total s) (bo_excl s) (orc_r s) (orc_s s) (proxy s) (rearmed_v s).
+Definition set_lb_probed (v : bool) (s : state) : state := mkState (reps s) (leader s) (valid s) (rt s) (sel_attempts s) (inv_retry s) (busy_thr s) (lb_count s) (lb_peer s) (v) (q_rt s) (q_rr s) (q_stale s) (q_retry s) (bo_total s) (bo_excl s) (orc_r s) (orc_s s) (proxy s) (rearmed_v s).
+Definition set_q_rt (v : read_type) (s : state) : state := mkState (reps s) (leader s) (valid s) (rt s) (sel_attempts s) (inv_retry s) (busy_thr s) (lb_count s) (lb_peer s) (lb_probed s) (v) (q_rr s) (q_stale s) (q_retry s) (bo_total s) (bo_excl s) (orc_r s) (orc_s s) (proxy s) (rearmed_v s).
+Definition set_q_rr (v : bool) (s : state) : state := mkState (reps s) (leader s) (valid s) (rt s) (sel_attempts s) (inv_retry s) (busy_thr s) (lb_count s) (lb_peer s) (lb_probed s) (q_rt s) (v) (q_stale s) (q_retry s) (bo_total s) (bo_excl s) (orc_r s) (orc_s s) (proxy s) (rearmed_v s).
+Definition set_q_stale (v : bool) (s : state) : state := mkState (reps s) (leader s) (valid s) (rt s) (sel_attempts s) (inv_retry s) (busy_thr s) (lb_count s) (lb_peer s) (lb_probed s) (q_rt s) (q_rr s) (v) (q_retry s) (bo_total s) (bo_excl s) (orc_r s) (orc_s s) (proxy s) (rearmed_v s).
+Definition set_q_retry (v : bool) (s : state) : state := mkState (reps s) (leader s) (valid s) (rt s) (sel_attempts s) (inv_retry s) (busy_thr s) (lb_count s) (lb_peer s) (lb_probed s) (q_rt s) (q_rr s) (q_stale s) (v) (bo_total s) (bo_excl s) (orc_r s) (orc_s s) (proxy s) (rearmed_v s).
+Definition set_bo_total (v : N) (s : state) : state := mkState (reps s) (leader s) (valid s) (rt s) (sel_attempts s) (inv_retry s) (busy_thr s) (lb_count s) (lb_peer s) (lb_probed s) (q_rt s) (q_rr s) (q_stale s) (q_retry s) (v) (bo_excl s) (orc_r s) (orc_s s) (proxy s) (rearmed_v s).
+Definition set_bo_excl (v : N) (s : state) : state := mkState (reps s) (leader s) (valid s) (rt s) (sel_attempts s) (inv_retry s) (busy_thr s) (lb_count s) (lb_peer s) (lb_probed s) (q_rt s) (q_rr s) (q_stale s) (q_retry s) (bo_total s) (v) (orc_r s) (orc_s s) (proxy s) (rearmed_v s).
+Definition set_orc_r (v : list nat) (s : state) : state := mkState (reps s) (leader s) (valid s) (rt s) (sel_attempts s) (inv_retry s) (busy_thr s) (lb_count s) (lb_peer s) (lb_probed s) (q_rt s) (q_rr s) (q_stale s) (q_retry s) (bo_total s) (bo_excl s) (v) (orc_s s) (proxy s) (rearmed_v s).
+Definition set_orc_s (v : list N) (s : state) : state := mkState (reps s) (leader s) (valid s) (rt s) (sel_attempts s) (inv_retry s) (busy_thr s) (lb_count s) (lb_peer s) (lb_probed s) (q_rt s) (q_rr s) (q_stale s) (q_retry s) (bo_total s) (bo_excl s) (orc_r s) (v) (proxy s) (rearmed_v s).
+Definition set_proxy (v : option nat) (s : state) : state := mkState (reps s) (leader s) (valid s) (rt s) (sel_attempts s) (inv_retry s) (busy_thr s) (lb_count s) (lb_peer s) (lb_probed s) (q_rt s) (q_rr s) (q_stale s) (q_retry s) (bo_total s) (bo_excl s) (orc_r s) (orc_s s) (v) (rearmed_v s).
+Definition set_rearmed_v (v : list bool) (s : state) : state := mkState (reps s) (leader s) (valid s) (rt s) (sel_attempts s) (inv_retry s) (busy_thr s) (lb_count s) (lb_peer s) (lb_probed s) (q_rt s) (q_rr s) (q_stale s) (q_retry s) (bo_total s) (bo_excl s) (orc_r s) (orc_s s) (proxy s) (v).
 
 
 Record cfg := mkCfg {
   c_rt : read_type; c_stale : bool; c_read : bool; c_has_labels : bool; c_leader_only : bool;
-  c_thr : bool; c_short_to : bool; c_max_sleep : N; c_val : bool; c_reps : list rep }.
+  c_thr : bool; c_short_to : bool; c_max_sleep : N; c_val : bool; c_reps : list rep;
+  c_fw : bool (* RegionCache.enableForwarding *) }.
 
 Definition dummy_rep : rep := mkRep max_replica_attempt false false false false false true Unreachable false false false false false false.
 Definition rep_at (s : state) (i : nat) : rep := nth i (reps s) dummy_rep.
@@ -214,7 +223,22 @@ Definition leader_next (s : state) : option nat :=
   let ld := rep_at s (leader s) in
   if leader_candidate ld && negb (f_suspect ld) then Some (leader s) else None.
 
-(* replicaSelector.nextForReplicaReadLeader (enableForwarding = false) *)
+(* baseReplicaSelector.invalidateReplicaStore *)
+Definition inval_store (r : rep) : rep := if stale r then r else set_slow true (set_stale true r).
+
+(* ReplicaSelectLeaderWithProxyStrategy.isCandidate / next (proxyTiKVIdx = -1) *)
+Definition proxy_cand (lead i : nat) (r : rep) : bool :=
+  negb (i =? lead) && negb (exhausted r 1) && is_reachable (live r) && negb (stale r).
+Inductive proxy_choice := PxLeaderOnly | PxVia (p : nat) | PxNone.
+Definition proxy_next (s : state) : proxy_choice :=
+  let ld := rep_at s (leader s) in
+  if is_reachable (live ld) || f_notleader ld then PxLeaderOnly
+  else match find (fun i => proxy_cand (leader s) i (rep_at s i)) (seq 0 (length (reps s))) with
+       | Some p => PxVia p
+       | None => PxNone
+       end.
+
+(* replicaSelector.nextForReplicaReadLeader without the proxy strategy *)
 Definition next_leader (c : cfg) (s : state) : option nat * state :=
   let ld := rep_at s (leader s) in
   let '(t1, s1) :=
@@ -288,21 +312,26 @@ Definition with_backoff (c : cfg) (k : bo_kind) (s : state) (on_fail : result) :
 Definition on_send_fail (c : cfg) (s : state) (t : nat) (deadline : bool) (l : liveness) : hres :=
   if deadline && c_short_to c && c_read c then HRetry (upd_rep t (set_f_deadline true) s) []
   else
+    let a := match proxy s with Some p => p | None => t end in   (* the accessed store: the proxy if there is one *)
     let s1 := if is_reachable l then s
-              else upd_rep t (fun r => if is_reachable (live r) then set_live l r else r) s in
-    let s2 := if is_reachable l then s1
-              else upd_rep t (fun r => if stale r then r else set_slow true (set_stale true r)) s1 in
+              else upd_rep a (fun r => if is_reachable (live r) then set_live l r else r) s in
+    (* "just return to use proxy": leader unreachable, forwarding on, no proxy used yet *)
+    let use_proxy_next := rt_eqb (rt s) RTLeader && match proxy s with None => true | Some _ => false end && (t =? leader s) &&
+                          is_unreachable l && (1 <? length (reps s)) && c_fw c in
+    let s2 := if is_reachable l || use_proxy_next then s1 else upd_rep a inval_store s1 in
     with_backoff c BoRPC s2 RError.
 
 (* replicaSelector.onNotLeader with a leader hint (baseReplicaSelector.updateLeader, replica.onUpdateLeader) *)
-Definition on_not_leader_hint (s : state) (t k : nat) : hres :=
+Definition on_not_leader_hint (once : bool) (s : state) (t k : nat) : hres :=
   let s1 := upd_rep t (set_f_notleader true) s in
   if length (reps s1) <=? k then HRetry (set_valid false s1) []
   else if negb (is_reachable (live (rep_at s1 k))) then HRetry s1 []
   else
-    let was_exhausted := exhausted (rep_at s1 k) max_replica_attempt in
+    (* [rearmed_v] (which replicas were re-armed) only matters for the repair candidate [once = true] *)
+    let was_exhausted := exhausted (rep_at s1 k) max_replica_attempt && (negb once || negb (nth k (rearmed_v s1) true)) in
     let s2 := upd_rep k (fun r => set_f_suspect false (set_f_notleader false
-                                   (if exhausted r max_replica_attempt then set_attempts (max_replica_attempt - 1) r else r))) s1 in
+                                   (if was_exhausted then set_attempts (max_replica_attempt - 1) r else r)))
+                (if was_exhausted && once then set_rearmed_v (upd k (fun _ => true) (rearmed_v s1)) s1 else s1) in
     let s3 := set_leader k s2 in
     let s4 := if leader_candidate (rep_at s3 k) then set_rt RTLeader s3 else s3 in
     HRetry s4 (if was_exhausted then [ERearm k] else []).
@@ -332,13 +361,13 @@ Definition on_busy (c : cfg) (s : state) (t : nat) (wait : bool) : hres :=
   else with_backoff c BoBusy s1 RError.
 
 (* RegionRequestSender.onRegionError / onSendFail, for the outcome o of attempt number i sent to replica t *)
-Definition handle (c : cfg) (s : state) (t : nat) (o : outcome) (i : nat) : hres :=
+Definition handle (once : bool) (c : cfg) (s : state) (t : nat) (o : outcome) (i : nat) : hres :=
   match o with
   | OSuccess => HDone (RSuccess i) []
   | ORpcErr l => on_send_fail c s t false l
   | ODeadline l => on_send_fail c s t true l
   | ONotLeader => with_backoff c BoRegionScheduling (upd_rep t (set_f_notleader true) s) RError
-  | ONotLeaderHint k => on_not_leader_hint s t k
+  | ONotLeaderHint k => on_not_leader_hint once s t k
   | OEpochNoRegions | OEpochNewer | OStoreNotMatch => HDone (RRegionErr i) []
   | OEpochBehind => with_backoff c BoRegionMiss s RError
   | ORegionNotFound =>
@@ -378,7 +407,24 @@ Definition sel_phase (c : cfg) (s : state) : sres :=
   match go with
   | None => no_candidate c s
   | Some s0 =>
-      let s1 := set_sel_attempts (sat3 (S (sel_attempts s0))) s0 in
+      let s1 := set_proxy None (set_sel_attempts (sat3 (S (sel_attempts s0))) s0) in
+      match (if rt_eqb (rt s1) RTLeader && c_fw c then proxy_next s1 else PxLeaderOnly) with
+      | PxNone =>
+          (* all followers are tried as proxy: invalidate the leader's store, reload on access *)
+          no_candidate c (set_valid false (upd_rep (leader s1) inval_store s1))
+      | PxVia p =>
+          let t := leader s1 in
+          if stale (rep_at s1 t) || stale (rep_at s1 p) then no_candidate c (set_valid false s1)
+          else
+            let s3 := upd_rep p (fun r => set_attempts (S (attempts r)) r)
+                        (upd_rep t (fun r => set_attempts (S (attempts r)) r) (set_proxy (Some p) s1)) in
+            if pending (rep_at s3 t) then
+              match backoff c BoBusy (upd_rep t (set_pending false) s3) with
+              | Some (s4, e) => SSent s4 t [e; EProxy p]
+              | None => SDone RError []
+              end
+            else SSent s3 t [EProxy p]
+      | PxLeaderOnly =>
       let '(tg, s2) := if rt_eqb (rt s1) RTLeader then next_leader c s1 else next_mixed c s1 in
       match tg with
       | None => no_candidate c s2
@@ -393,6 +439,7 @@ Definition sel_phase (c : cfg) (s : state) : sres :=
               end
             else SSent s3 t []
       end
+      end
   end.
 
 (* sendReqState.send: the client-side slow score statistics of a prefer-leader request *)
@@ -402,8 +449,8 @@ Definition after_send (s : state) (t : nat) : state :=
   else s.
 
 (* the retry loop of SendReqCtx: [prev] is the replica and the outcome of attempt i-1 *)
-Fixpoint loop (c : cfg) (script : list outcome) (s : state) (prev : option (nat * outcome)) (i : nat) : list event * result :=
-  match (match prev with None => HRetry s [] | Some (t, o) => handle c s t o (pred i) end) with
+Fixpoint loop_gen (once : bool) (c : cfg) (script : list outcome) (s : state) (prev : option (nat * outcome)) (i : nat) : list event * result :=
+  match (match prev with None => HRetry s [] | Some (t, o) => handle once c s t o (pred i) end) with
   | HDone r evs => (evs, r)
   | HRetry s1 evs1 =>
       let s1' := if 0 <? i then set_q_retry true s1 else s1 in
@@ -416,7 +463,7 @@ Fixpoint loop (c : cfg) (script : list outcome) (s : state) (prev : option (nat 
           | [] => (evs1 ++ evs2 ++ [ev], RSuccess i)
           | OSuccess :: _ => (evs1 ++ evs2 ++ [ev], RSuccess i)
           | o :: rest =>
-              let '(evs, r) := loop c rest s3 (Some (t, o)) (S i) in
+              let '(evs, r) := loop_gen once c rest s3 (Some (t, o)) (S i) in
               (evs1 ++ evs2 ++ ev :: evs, r)
           end
       end
@@ -425,12 +472,16 @@ Fixpoint loop (c : cfg) (script : list outcome) (s : state) (prev : option (nat 
 Definition init_state (c : cfg) (rands : list nat) (sleeps : list N) : state :=
   mkState (c_reps c) 0 true (c_rt c) 0 false (c_thr c) 0 None false
           (c_rt c) (c_read c && negb (c_stale c) && negb (rt_eqb (c_rt c) RTLeader)) (c_read c && c_stale c) false
-          0%N 0%N rands sleeps.
+          0%N 0%N rands sleeps None (map (fun _ => false) (c_reps c)).
 
 (* SendReqCtx: validateReadTS first (reads only), then the loop *)
-Definition run (c : cfg) (script : list outcome) (rands : list nat) (sleeps : list N) : list event * result :=
+Definition run_gen (once : bool) (c : cfg) (script : list outcome) (rands : list nat) (sleeps : list N) : list event * result :=
   if c_read c && negb (c_val c) then ([], RError)
-  else loop c script (init_state c rands sleeps) None 0.
+  else loop_gen once c script (init_state c rands sleeps) None 0.
+(* the code as it is *)
+Definition run := run_gen false.
+(* repair candidate for F10: an exhausted replica is re-armed at most once per selector *)
+Definition run_rearm_once := run_gen true.
 
 (* observables *)
 Definition is_att (e : event) : bool := match e with EAtt _ _ _ _ => true | _ => false end.
